@@ -489,6 +489,10 @@ def run(tier, seed, only_c19=False):
                                                                      "message": ob["message"], "model": ob.get("counterexample")})
             ob["replay_path"] = path
             ob["replay"] = {"path": path, "outcome": "model-only", "message": "operation history for the config store (history ids / index internals are not observable through the actor's messages)"}
+    if not only_c19:
+        # request parameters of a listing -> listing (its own native twin: harness/hist_search.rs)
+        from . import c09search
+        obligations.append(c09search.run(tier, seed))
     hist = [h for ob in obligations for h in ob.pop("_validate", [])]
     if hist and native_ok:
         val = native_histories(prop_id, "config", "validate", hist)
